@@ -49,6 +49,10 @@ def random_curve_spec(rng):
     degree = rng.choice([2, 3])
     mixed = rng.random() < 0.3
     spec, _ = G.random_blob(rng, center, size, degree=degree, mixed=mixed)
+    if rng.random() < 0.3:
+        segs = G.blob_segments(rng, rng.choice([3, 4]), degree, center, 0.8 * size, size, False, bulge=2.2)
+        spec = G.ctrl_spec(segs, "float")
+        return spec, "blob-bulged-%d" % degree
     return spec, "blob-%s" % ("mixed" if mixed else degree)
 
 
